@@ -63,6 +63,24 @@ pub fn run(r: &mut Report) {
             pubs.push((name.to_string(), k, scheme.clone()));
         }
     }
+    // a raw Ed25519 pair whose second half is NOT the public key of its seed: refused - or, if taken, identified by the key the
+    // seed really has (never by the foreign half), and what it signs verifies under the key it names
+    {
+        let pk8 = |i: usize| std::fs::read(format!("/repo/tests/ed25519/ed25519-{}.pk8.der", i)).unwrap();
+        for (a, b) in [(1usize, 2usize), (2, 1), (3, 3)] {
+            let (da, db) = (pk8(a), pk8(b));
+            let raw: Vec<u8> = da[16..48].iter().chain(db[db.len() - 32..].iter()).cloned().collect();
+            let res = no_panic(|| PrivateKey::from_ed25519(&raw));
+            let seed_owner = PrivateKey::from_ed25519(&da[16..48].iter().chain(da[da.len() - 32..].iter()).cloned().collect::<Vec<u8>>()).unwrap();
+            let (ok, obs) = match &res {
+                Ok(Err(e)) => (a != b, format!("refused: {}", e)),
+                Ok(Ok(k)) => { let sig = k.sign(b"msg"); let names_itself = k.key_id() == seed_owner.key_id() && k.public().as_bytes() == seed_owner.public().as_bytes();
+                    let verifies = matches!(&sig, Ok(s) if k.public().verify(b"msg", s).is_ok());
+                    (names_itself && verifies, format!("accepted: identified as the seed's key: {}, its signature verifies under its public half: {}", names_itself, verifies)) }
+                Err(p) => (false, format!("panic: {}", p)) };
+            r.case("ed25519-pair-halves", json!({"seed_of_key": a, "public_half_of_key": b}), if a == b { "accepted, identified by its own key" } else { "refused (or identified by the seed's key)" }, obs, ok);
+        }
+    }
     // the hash-algorithm list is part of a key's description AS GIVEN (order, repeats, spelling): a key constructed with it, or read
     // from a document carrying it, writes the same list back, and its id is the hash of the description with that very list -
     // computed here from the inputs, not from anything the library wrote
